@@ -4,7 +4,7 @@ import GT.Model.Obj
 import GT.Model.Action
 import GT.Lemmas.Action
 import GT.Driver.C04
-open Lean GT.J GT
+open Lean GT.J GT GT.Act
 namespace GT.Driver.C03
 open GT.Driver.C04 (ndf ndOf ofND modeOf liftE)
 
